@@ -18,6 +18,8 @@ import (
 	"sync"
 	"sync/atomic"
 	"time"
+
+	"golang.org/x/net/internal/verifrt"
 )
 
 type vhnFaults struct {
@@ -51,7 +53,7 @@ type vhnNet struct {
 	stop    chan struct{}
 	stopMu  sync.Once
 	stopped bool
-	wg      sync.WaitGroup
+	wg      verifrt.WG
 
 	// counters (read them after Stop, or under mu)
 	Sent, Dropped, Duped, Reordered, Delivered, Filtered [2]int64
